@@ -42,7 +42,11 @@ done
 
 list=""
 for f in "$HERE"/mutants/*/*.diff; do [ -e "$f" ] && list="$list $f"; done
-for f in "$HERE"/seeded/*/patch.diff; do [ -e "$f" ] && list="$list $f"; done
+# a seeded patch written against the pinned tree may have been rebased onto the tree with the fix: commits
+for f in "$HERE"/seeded/*/patch.diff; do
+  [ -e "$f" ] || continue
+  if [ -e "$(dirname "$f")/patch.rebased.diff" ]; then list="$list $(dirname "$f")/patch.rebased.diff"; else list="$list $f"; fi
+done
 
 for f in $list; do
   case "$f" in *"$PATTERN"*) ;; *) continue ;; esac
